@@ -1,6 +1,7 @@
 import Std.Data.HashMap
 import A2lVerif.Model.Tree
 import A2lVerif.Model.Lex
+import A2lVerif.Model.IfData
 import A2lVerif.Driver.Lex
 import A2lVerif.Gen.Symbols
 import A2lVerif.Gen.Shipped
@@ -39,6 +40,19 @@ def parseFloats (s : String) : Std.HashMap String String :=
       | _, _ => m
     | _ => m) {}
 
+def tyA2ml : Nat := symOf "A2ml"
+
+/-- the `f32` codec for A2ML `float` members: the harness supplies it under the key `f32:<token text>` for every token
+    that `str::parse::<f32>` accepts; a hex token (`u64::from_str_radix(..) as f32`) is not in that table: the text of
+    the f64 conversion is used, which is the same text whenever the value is below 2^24 -/
+def f32Of (fl : Std.HashMap String String) (text : List Char) : Option (List Char) :=
+  match fl.get? ("f32:" ++ String.ofList text) with
+  | some r => some r.toList
+  | none =>
+    match text with
+    | '0' :: x :: _ => if x = 'x' ∨ x = 'X' then (fl.get? (String.ofList text)).map String.toList else none
+    | _ => none
+
 def showLog (log : List Diag) : String :=
   ",".intercalate (log.reverse.map fun d => s!"{d.kind.name}@{d.line}")
 
@@ -72,7 +86,9 @@ def handle (args : List String) : String :=
             fl := if k == 5 then (fl.get? text).map String.toList else none }
         if ptoks.isEmpty then "err EmptyFile" else
         let env : Env := { toks := ptoks, strict := strict == "1", table := Shipped.table, code := Shipped.code,
-                           known := known, symbols := symbols }
+                           known := known, symbols := symbols,
+                           special := IfData.special tyA2ml (f32Of fl) [],
+                           specialWrite := IfData.specialWrite tyA2ml }
         match runParseFile env with
         | .panic => "PANIC"
         | .fuel => "FUEL"
